@@ -314,7 +314,7 @@ var trustedBase = []string{
 	"lvc VC generator (this engine): SSA translation, heap model, contract evaluator",
 	"golang.org/x/tools/go/ssa builder (NaiveForm) and go/types",
 	"SMT solvers z3 4.8.12, z3 5.1.0, cvc5 1.0",
-	"int/uint are 64 bit (amd64); no memory exhaustion or stack overflow; partial correctness unless 'decreases' given",
+	"int/uint are 64 bit (amd64); no memory exhaustion (no slice or string exceeds 2^40 elements) or stack overflow; partial correctness unless 'decreases' given",
 	"external callees obey their assumed contracts (listed under assumptions)",
 	"sequential execution only (no goroutines); user callbacks do not re-enter logg",
 	"default build tags plus 'verif'",
